@@ -48,7 +48,7 @@ let () =
           if not !panicked then begin
             (* hints are irrelevant for the model side *)
             let op = Prog.parse_op o "" in
-            let (m', r) = step_model Z0 !m op in
+            let (m', r) = zstep_model !m op in
             m := m';
             if r = RPanic then panicked := true
           end) ops;
